@@ -79,6 +79,62 @@ def sampled_kernel(S, dim):
     return ffts[0].inp.alloc.valfn(tuple(fld("i%d" % k, ()) for k in range(dim)))
 
 
+INSTANCE_SIZES = {2: [(7, 9), (9, 7)], 3: [(6, 7, 9), (9, 6, 7)]}
+
+
+def near_field_instances(S, rep, dim, generic_ok):
+    """the sampled kernel on concrete grid sizes, entry by entry around the origin and around the mirror planes: every entry equals
+    the documented value, and no branch of the sampling code is decided there by comparing two quantities that are equal in exact
+    arithmetic (in floating point such a tie goes either way: a guard `r < dx` overwrites a nearest-neighbour entry whenever the
+    rounded step is one ulp short of the rounded dx).  With concrete sizes and indices every condition is a comparison of numbers
+    times powers of x_range, hence decided."""
+    import itertools
+    from .. import poly as _poly
+    from ..driver import Session
+    from ..regions import Bd, SizeCase, set_case, CURRENT_CASE
+    lab = "%dD" % dim
+    saved = CURRENT_CASE[0]
+    bad, ties, n_eval = [], [], 0
+    try:
+        for sizes in INSTANCE_SIZES[dim]:
+            set_case(SizeCase(subs=tuple((nm, Bd(v)) for nm, v in zip(SIZES[dim], sizes))))
+            S2 = Session(S.repo, S.real_t.name)
+            inst, init_tr = build(S2, dim)
+            ffts = [op for op in init_tr if op.kind == "FFT"]
+            if len(ffts) != 1 or ffts[0].inp.alloc.valfn is None:
+                raise Unsupported("instance %s: the sampled kernel has no closed form" % (sizes,))
+            vf = ffts[0].inp.alloc.valfn
+            axes = []
+            for n in sizes:
+                axes.append([0, 1, 2, n - 1, n, n + 1, 2 * n - 2, 2 * n - 1])
+            for idx in itertools.product(*axes):
+                if not any(idx):
+                    continue
+                _poly.TIE_LOG = []
+                try:
+                    val = vf(tuple(const(k) for k in idx))
+                    logged = list(_poly.TIE_LOG)
+                finally:
+                    _poly.TIE_LOG = None
+                want_v = documented_greens(dim, tuple(const(k) for k in idx))
+                n_eval += 1
+                if not pw_equal(PW.of(val), want_v):
+                    bad.append("sizes %s entry %s: %s, documented %s" % (sizes, idx, short(val, 100), short(want_v, 100)))
+                if logged:
+                    ties.append("sizes %s entry %s" % (sizes, idx))
+    finally:
+        set_case(saved)
+    rep.ob("C03.c", lab + " kernel entries on concrete grids", not bad, "; ".join(bad[:3]) if bad else "%d entries around the origin and the mirror planes" % n_eval,
+           key="C03.c|%s|entries|%s" % (lab, bad[:1]))
+    rep.ob("C03.c", lab + " kernel entries do not hinge on a floating-point tie", not ties,
+           "the sampling code compares two quantities that are equal in exact arithmetic at %s: the entry depends on rounding" % "; ".join(ties[:3]) if ties
+           else "no comparison of equal quantities in %d entries" % n_eval, key="C03.c|%s|ties|%s" % (lab, ties[:1]), nontrivial=False)
+    if not generic_ok and not bad and not ties:
+        raise Unsupported("%s: the sampled kernel could not be compared with the documented one for symbolic sizes (index-dependent guard?), "
+                          "although all %d entries on concrete grids agree" % (lab, n_eval))
+    return bad
+
+
 def check_dim(S, rep, dim):
     lab = "%dD" % dim
     try:
@@ -123,10 +179,14 @@ def check_dim(S, rep, dim):
     got = vf(idx)
     want = documented_greens(dim, idx)
     ok = pw_equal(got, want)
-    rep.ob("C03.c", lab + " Green's function at cell separations", ok,
-           "sampled kernel is %s; documented %s of the even-reflected separation" % (short(got, 300), "-ln(r)/(2 pi)" if dim == 2 else "1/(4 pi r)") if not ok
-           else "-ln(r)/(2 pi)" if dim == 2 else "1/(4 pi r)", key="C03.c|%s|kernel|%s" % (lab, short(got, 100)),
-           sample={"dim": dim, "kernel": short(got, 200)})
+    entries_bad = near_field_instances(S, rep, dim, generic_ok=ok)
+    if ok or entries_bad:
+        # (when the symbolic comparison fails only because of a guard it cannot resolve on the integer lattice, and every concrete
+        # entry agrees, the symbolic obligation is not decided: the tie rule above carries the verdict)
+        rep.ob("C03.c", lab + " Green's function at cell separations", ok,
+               "sampled kernel is %s; documented %s of the even-reflected separation" % (short(got, 300), "-ln(r)/(2 pi)" if dim == 2 else "1/(4 pi r)") if not ok
+               else "-ln(r)/(2 pi)" if dim == 2 else "1/(4 pi r)", key="C03.c|%s|kernel|%s" % (lab, short(got, 100)),
+               sample={"dim": dim, "kernel": short(got, 200)})
     z = tuple(const(0) for _ in range(dim))
     got0 = vf(z)
     ok0 = pw_equal(PW.of(got0), self_cell(dim))
